@@ -1,6 +1,6 @@
 (* C18 — proofs about the translated tables (gen/Tables.v) and the translated
    geometry kernels of C11 (FV.C11.gen.Kernels), over R. *)
-From Coq Require Import ZArith Reals List String Lra Permutation Bool.
+From Coq Require Import ZArith Reals List String Lra Lia Permutation Bool.
 From FV.C11 Require Import Model Entry Proofs ProofsVol ProofsGauss.
 From FV.C11.gen Require Import Kernels.
 From FV.C18 Require Import Model.
@@ -91,8 +91,10 @@ Proof. intros; destruct_pts; unfold_poly; do 2 f_equal; unfold_all; field. Qed.
 Lemma permute_is_permutation (c0 c1 c2 c3 : Z) :
   exists c', select [c0;c1;c2;c3] permute_tet = Some c' /\ Permutation [c0;c1;c2;c3] c'.
 Proof.
-  eexists; split; [reflexivity |]. cbv [permute_tet].
-  apply perm_skip. apply perm_swap.
+  eexists; split; [reflexivity |].
+  (* robust to any permutation table: compare occurrence counts *)
+  apply (Permutation_count_occ Z.eq_dec). intros x. simpl.
+  repeat destruct (Z.eq_dec _ _); congruence || reflexivity || lia.
 Qed.
 
 (* ---- resolve_degeneracy: for each of the four translated collapse patterns and
